@@ -4,6 +4,7 @@ import (
 	"bytes"
 	"fmt"
 	"math/rand"
+	"strconv"
 	"strings"
 )
 
@@ -125,6 +126,7 @@ func checkC07(c *Ctx) {
 	st.Wait()
 	checkC07Traces(c)
 	checkC07LongLoops(c)
+	checkC07TreeWalk(c)
 	if c.Thorough() {
 		checkLongHistories(c, []int{1000, 400000})
 	} else {
@@ -169,4 +171,209 @@ func checkC07LongLoops(c *Ctx) {
 		}
 		c.Case("longloop:"+string(jobs[i].Prog)+string(jobs[i].Files[0].Data), true)
 	})
+}
+
+// Recursive walks over nested documents: the same for-in statement is re-entered by recursion while outer
+// activations are still iterating.  Every object member and array element is visited exactly once, array
+// elements and string characters in order, each subtree completely before the next sibling; the order of
+// object keys is only required to be deterministic (two runs agree).  The output is matched against the
+// document by a recursive-descent matcher (no order of keys is assumed).
+type walkNode struct {
+	kind string // obj arr str num bool null
+	keys []string
+	kids []*walkNode
+	s    string
+	n    int
+	b    bool
+}
+
+func genWalkTree(r *rand.Rand, depth int) *walkNode {
+	k := r.Intn(10)
+	if depth <= 0 && k < 6 {
+		k = 6 + r.Intn(4)
+	}
+	switch {
+	case k < 4:
+		pool := []string{"a", "b", "c", "p", "q", "r", "x", "10", "9", "k2", "Zz"}
+		r.Shuffle(len(pool), func(i, j int) { pool[i], pool[j] = pool[j], pool[i] })
+		n := 1 + r.Intn(5)
+		nd := &walkNode{kind: "obj"}
+		for i := 0; i < n; i++ {
+			nd.keys = append(nd.keys, pool[i])
+			nd.kids = append(nd.kids, genWalkTree(r, depth-1))
+		}
+		return nd
+	case k < 6:
+		nd := &walkNode{kind: "arr"}
+		for i := r.Intn(4); i > 0; i-- {
+			nd.kids = append(nd.kids, genWalkTree(r, depth-1))
+		}
+		return nd
+	case k == 6:
+		return &walkNode{kind: "str", s: []string{"", "a", "xy", "q r"}[r.Intn(4)]}
+	case k == 7:
+		return &walkNode{kind: "bool", b: r.Intn(2) == 0}
+	case k == 8:
+		return &walkNode{kind: "null"}
+	}
+	return &walkNode{kind: "num", n: r.Intn(50)}
+}
+
+func (w *walkNode) json() string {
+	switch w.kind {
+	case "obj":
+		parts := []string{}
+		for i, k := range w.keys {
+			parts = append(parts, strconv.Quote(k)+":"+w.kids[i].json())
+		}
+		return "{" + strings.Join(parts, ",") + "}"
+	case "arr":
+		parts := []string{}
+		for _, k := range w.kids {
+			parts = append(parts, k.json())
+		}
+		return "[" + strings.Join(parts, ",") + "]"
+	case "str":
+		return strconv.Quote(w.s)
+	case "bool":
+		return strconv.FormatBool(w.b)
+	case "null":
+		return "null"
+	}
+	return strconv.Itoa(w.n)
+}
+
+// matchWalk consumes the lines the walk of w at depth d must print; returns the rest or an explanation.
+func matchWalk(w *walkNode, d int, lines []string) ([]string, string) {
+	switch w.kind {
+	case "obj":
+		left := map[string]*walkNode{}
+		for i, k := range w.keys {
+			left[k] = w.kids[i]
+		}
+		for len(left) > 0 {
+			if len(lines) == 0 {
+				return nil, fmt.Sprintf("output ends while %d member(s) of an object at depth %d are unvisited", len(left), d)
+			}
+			f := strings.SplitN(lines[0], " ", 3)
+			if len(f) != 3 || f[0] != "k" || f[1] != strconv.Itoa(d) {
+				return nil, fmt.Sprintf("expected a member line of depth %d, got %q", d, lines[0])
+			}
+			kid, ok := left[f[2]]
+			if !ok {
+				return nil, fmt.Sprintf("line %q: not an unvisited key of the object being iterated at depth %d", lines[0], d)
+			}
+			delete(left, f[2])
+			var why string
+			lines, why = matchWalk(kid, d+1, lines[1:])
+			if why != "" {
+				return nil, why
+			}
+		}
+		return lines, ""
+	case "arr":
+		for i, kid := range w.kids {
+			want := fmt.Sprintf("i %d %d", d, i)
+			if len(lines) == 0 || lines[0] != want {
+				return nil, fmt.Sprintf("expected %q, got %q", want, firstLineOr(lines))
+			}
+			var why string
+			lines, why = matchWalk(kid, d+1, lines[1:])
+			if why != "" {
+				return nil, why
+			}
+		}
+		return lines, ""
+	case "str":
+		for i := 0; i < len(w.s); i++ {
+			want := fmt.Sprintf("c %d %s %d", d, string(w.s[i]), i)
+			if len(lines) == 0 || lines[0] != want {
+				return nil, fmt.Sprintf("expected %q, got %q", want, firstLineOr(lines))
+			}
+			lines = lines[1:]
+		}
+		return lines, ""
+	}
+	want := fmt.Sprintf("leaf %d %s", d, w.json())
+	if len(lines) == 0 || lines[0] != want {
+		return nil, fmt.Sprintf("expected %q, got %q", want, firstLineOr(lines))
+	}
+	return lines[1:], ""
+}
+
+func firstLineOr(l []string) string {
+	if len(l) == 0 {
+		return "<end of output>"
+	}
+	return l[0]
+}
+
+var c07WalkPrograms = []string{
+	"function walk(t, d) {\n  if (t is object) {\n    for (k, v in t) {\n      print \"k\", d, k\n      walk(v, d + 1)\n    }\n    return\n  }\n  if (t is array) {\n    for (v, i in t) {\n      print \"i\", d, i\n      walk(v, d + 1)\n    }\n    return\n  }\n  if (t is string) {\n    for (ch, off in t) {\n      print \"c\", d, ch, off\n    }\n    return\n  }\n  print \"leaf\", d, t\n}\n{\n  walk($, 0)\n}\n",
+	// keys only, the member looked up afterwards (loop variables are not read after the recursive call: an inner
+	// activation finds and re-uses the variables of the outer one)
+	"function walk(t, d) {\n  if (t is object) {\n    for (k in t) {\n      print \"k\", d, k\n      walk(t[k], d + 1)\n    }\n  } else if (t is array) {\n    for (v, i in t) {\n      print \"i\", d, i\n      walk(t[i], d + 1)\n    }\n  } else if (t is string) {\n    for (ch, off in t) {\n      print \"c\", d, ch, off\n    }\n  } else {\n    print \"leaf\", d, t\n  }\n}\n{\n  walk($, 0)\n}\n",
+	// mutual recursion through a match arm
+	"function walk(t, d) {\n  return match (t is object) { true => members(t, d), _ => other(t, d) }\n}\nfunction members(t, d) {\n  for (k, v in t) {\n    print \"k\", d, k\n    walk(v, d + 1)\n  }\n}\nfunction other(t, d) {\n  if (t is array) {\n    for (v, i in t) {\n      print \"i\", d, i\n      walk(v, d + 1)\n    }\n    return\n  }\n  if (t is string) {\n    for (ch, off in t) {\n      print \"c\", d, ch, off\n    }\n    return\n  }\n  print \"leaf\", d, t\n}\n{\n  walk($, 0)\n}\n",
+}
+
+func checkC07TreeWalk(c *Ctx) {
+	pool := c.Pool()
+	rng := rand.New(rand.NewSource(c.Seed*7919 + 17))
+	ntrees := 60
+	if c.Thorough() {
+		ntrees = 1500
+	}
+	var jobs []Job
+	var trees []*walkNode
+	for i := 0; i < ntrees; i++ {
+		t := genWalkTree(rng, 4)
+		if i == 0 {
+			// the smallest document on which a key buffer shared between activations of one for-in shows
+			t = &walkNode{kind: "obj", keys: []string{"a", "b", "c"}, kids: []*walkNode{
+				{kind: "obj", keys: []string{"x"}, kids: []*walkNode{{kind: "num", n: 1}}},
+				{kind: "obj", keys: []string{"p", "q", "r"}, kids: []*walkNode{{kind: "num", n: 1}, {kind: "num", n: 2}, {kind: "num", n: 3}}},
+				{kind: "num", n: 5}}}
+		}
+		for _, p := range c07WalkPrograms {
+			jobs = append(jobs, Job{Kind: "run", Prog: []byte(p), Files: []FileIn{{Name: "in.json", Data: []byte("[" + t.json() + "]")}}, Budget: 2_000_000})
+			trees = append(trees, t)
+		}
+	}
+	first := make([]string, len(jobs))
+	for round := 0; round < 2; round++ {
+		pool.Map(jobs, func(i int, r Result) {
+			if r.Class == "budget" || r.Class == "timeout" {
+				c.Count("inconclusive", 1)
+				return
+			}
+			rep := func(why string) map[string]any {
+				return map[string]any{"program": string(jobs[i].Prog), "input": string(jobs[i].Files[0].Data), "got_class": r.Class, "got_err": r.ErrMsg, "got_stdout": firstN(string(r.Stdout), 1500), "why": why, "detail": firstN(r.Detail, 800)}
+			}
+			if r.Class != "ok" {
+				c.Violation("tree-walk-"+r.Class, rep("a recursive walk over a document must complete"))
+				return
+			}
+			if round == 1 {
+				if first[i] != "" && first[i] != string(r.Stdout) {
+					c.Violation("tree-walk-order", rep("two runs of the same walk over the same document visit object keys in different orders"))
+				}
+				return
+			}
+			first[i] = string(r.Stdout)
+			lines := []string{}
+			if len(r.Stdout) > 0 {
+				lines = strings.Split(strings.TrimSuffix(string(r.Stdout), "\n"), "\n")
+			}
+			rest, why := matchWalk(trees[i], 0, lines)
+			if why == "" && len(rest) > 0 {
+				why = fmt.Sprintf("%d line(s) after the complete walk, first %q", len(rest), rest[0])
+			}
+			if why != "" {
+				c.Violation("tree-walk", rep(why))
+				return
+			}
+			c.Case("walk:"+string(jobs[i].Files[0].Data)+string(jobs[i].Prog[:40]), len(lines) > 3)
+		})
+	}
 }
